@@ -306,6 +306,9 @@ func init() {
 			fe = append(fe, []string{"name", fmt.Sprint(i)})
 		}
 		firstUse(r, fe)
+		// the language fallback as a user meets it: through the language options of the report
+		// constructors (one to three options over {en, ja, fr, und}, DESIGN.md 10.4)
+		r.Phase("names through report language options", func() { optionLists(r, &evals) })
 		r.Add("evaluations", evals)
 		r.Add("distinct_nontrivial", distinct)
 		r.Sample(map[string]any{"function": "names.MPRValueOf", "arguments": "X,N,L,H and -2^31,-2,-1,0,5,6,2^31", "languages": "en, ja, " + fmt.Sprint(len(others)) + " other tags"})
